@@ -159,6 +159,10 @@ def check(pid, tier, seed):
     for x, info in rej.items():
         nx = info.get("next") or {}
         b = info["events"][0]
+        if any(e["e"] == "StartThrew" for e in info["events"]):
+            # a thread that cannot be created is not in C20's quantifier: reported, not judged
+            verdict.note("thread[kind=%s, creation fails]@%s(a=%s)" % (b["a"], nx.get("e"), nx.get("a")), {"matched": info["matched"]})
+            continue
         verdict.violation("thread[kind=%s,args=%s]@%s(a=%s)" % (b["a"], b["b"], nx.get("e"), nx.get("a")),
                           {"matched": info["matched"], "next": nx}, {"component": "thread", "xid": x, "id": x, "events": info["events"]})
     distinct = len({json.dumps(e) for e in execs.values()})
